@@ -27,11 +27,14 @@ def load_known():
 
 
 def load_known_combinators():
+    """({function: combinators it uses on the pinned tree}, combinators that were not yet in the table when the baseline was recorded —
+    those are never lowered: whether a function already used them is unknown)."""
     try:
         with open(KNOWN) as fh:
-            return {k: set(v) for k, v in json.load(fh).get("combinators", {}).items()}
+            j = json.load(fh)
+        return {k: set(v) for k, v in j.get("combinators", {}).items()}, set(COMBINATORS) - set(j.get("combinator_table", []))
     except (OSError, ValueError, KeyError):
-        return {}
+        return {}, set(COMBINATORS)
 
 
 # --------------------------------------------------------------------------------------------
@@ -55,6 +58,7 @@ COMBINATORS = {
     "std::option::Option::<T>::ok_or": (OPT, {"Some": ("wrap", RES, "Ok"), "None": ("wraparg", RES, "Err", 1)}),
     "std::option::Option::<T>::ok_or_else": (OPT, {"Some": ("wrap", RES, "Ok"), "None": ("call", 1, False, (RES, "Err"))}),
     "std::option::Option::<T>::is_some_and": (OPT, {"Some": ("call", 1, True, None), "None": ("lit", False)}),
+    "std::option::Option::<T>::filter": (OPT, {"Some": ("filter", 1), "None": ("unit", OPT, "None")}),
     "std::option::Option::<T>::is_none_or": (OPT, {"Some": ("call", 1, True, None), "None": ("lit", True)}),
     "std::result::Result::<T, E>::map": (RES, {"Ok": ("call", 1, True, (RES, "Ok")), "Err": ("wrap", RES, "Err")}),
     "std::result::Result::<T, E>::map_err": (RES, {"Ok": ("wrap", RES, "Ok"), "Err": ("call", 1, True, (RES, "Err"))}),
@@ -143,8 +147,14 @@ def lower_body(raws, path, raw, skip):
         plan = {}
         ok = True
         for variant, act in arms.items():
+            is_filter = act[0] == "filter"
+            if is_filter:
+                act = ("call", act[1], True, None)
             if act[0] != "call":
                 continue
+            if is_filter and act[1] < len(args) and args[act[1]].get("k") == "const":
+                ok = False          # a function item as the predicate: left as it is
+                break
             if act[1] >= len(args):
                 ok = False
                 break
@@ -188,7 +198,7 @@ def lower_body(raws, path, raw, skip):
             has_payload = not (adt == OPT and variant == "None")
             payload = None
             stmts = []
-            if has_payload and (act[0] in ("wrap", "payload") or (act[0] == "call" and act[2])):
+            if has_payload and (act[0] in ("wrap", "payload", "filter") or (act[0] == "call" and act[2])):
                 payload = new_local("_")
                 stmts.append({"pl": {"l": payload, "p": []}, "rv": {"k": "use", "o": {"k": "move", "pl": {"l": x, "p": [["dc", variant, vi], ["f", 0, "_"]]}}}, "line": line})
             goto_t = {"k": "goto", "target": target, "line": line}
@@ -210,9 +220,48 @@ def lower_body(raws, path, raw, skip):
             elif act[0] == "lit":
                 stmts.append({"pl": copy.deepcopy(dest), "rv": {"k": "use", "o": {"k": "const", "ty": "bool", "v": act[1], "repr": "const " + str(act[1]).lower()}}, "line": line})
                 arm_blocks[variant] = new_block(stmts, goto_t)
+            elif act[0] == "filter" and plan[variant][0] == "closure":
+                # Some(v) -> if pred(&v) { Some(v) } else { None }
+                res = new_local("bool")
+                rf = new_local("&_")
+                keep_b = new_block([{"pl": copy.deepcopy(dest), "rv": _agg(OPT, "Some", [_mv(payload)]), "line": line}], goto_t)
+                drop_b = new_block([{"pl": copy.deepcopy(dest), "rv": _agg(OPT, "None", []), "line": line}], goto_t)
+                test_b = new_block([], {"k": "switch", "discr": _mv(res), "targets": [[0, drop_b]], "otherwise": keep_b, "discr_ty": "bool", "line": line, "lowered": name})
+                pl = plan[variant]
+                callee = raws[pl[1]]
+                off_l, off_b = len(cur["locals"]), len(cur["blocks"])
+                cur["locals"].extend(copy.deepcopy(callee["locals"]))
+                nbs = _renumber(callee["blocks"], off_l, off_b)
+                for nb in nbs:
+                    nb["file"] = callee.get("file")
+                    nb["from_closure"] = pl[1]
+                    if nb["term"] and nb["term"]["k"] == "return":
+                        nb["term"] = {"k": "goto", "target": -1, "line": nb["term"].get("line", line)}
+                cur["blocks"].extend(nbs)
+                fin_c = new_block([{"pl": {"l": res, "p": []}, "rv": {"k": "use", "o": _mv(off_l)}, "line": line}], {"k": "goto", "target": test_b, "line": line})
+                for nb in nbs:
+                    if nb["term"] and nb["term"]["k"] == "goto" and nb["term"]["target"] == -1:
+                        nb["term"]["target"] = fin_c
+                env_ty = callee["locals"][1]["ty"] if len(callee["locals"]) > 1 else ""
+                if env_ty.startswith("&"):
+                    stmts.append({"pl": {"l": off_l + 1, "p": []}, "rv": {"k": "ref", "mut": env_ty.startswith("&mut"), "pl": {"l": pl[2], "p": []}}, "line": line})
+                else:
+                    stmts.append({"pl": {"l": off_l + 1, "p": []}, "rv": {"k": "use", "o": _mv(pl[2])}, "line": line})
+                stmts.append({"pl": {"l": rf, "p": []}, "rv": {"k": "ref", "mut": False, "pl": {"l": payload, "p": []}}, "line": line})
+                stmts.append({"pl": {"l": off_l + 2, "p": []}, "rv": {"k": "use", "o": _mv(rf)}, "line": line})
+                arm_blocks[variant] = new_block(stmts, {"k": "goto", "target": off_b, "line": line, "inlined": pl[1]})
+            elif act[0] == "filter":
+                ok = False
+                break
             else:
                 wrap = act[3]
-                res = new_local("_")
+                # the arm's result has the closure's return type (keeps boolean results visible to the flag analyses)
+                res_ty = "_"
+                if plan[variant][0] == "closure" and raws[plan[variant][1]]["locals"]:
+                    res_ty = raws[plan[variant][1]]["locals"][0].get("ty", "_")
+                elif not wrap and not dest["p"] and dest["l"] < len(cur["locals"]):
+                    res_ty = cur["locals"][dest["l"]].get("ty", "_")
+                res = new_local(res_ty)
                 fin = [{"pl": copy.deepcopy(dest), "rv": (_agg(wrap[0], wrap[1], [_mv(res)]) if wrap else {"k": "use", "o": _mv(res)}), "line": line}]
                 ret_b = new_block(fin, goto_t)
                 pl = plan[variant]
@@ -366,7 +415,7 @@ def apply(prog, Body):
     prog.new_functions = []
     if known is None:
         return
-    known_combs = load_known_combinators()
+    known_combs, untracked = load_known_combinators()
     prog.lowered = {}
     for table_name in ("bodies", "elab"):
         table = getattr(prog, table_name)
@@ -377,7 +426,7 @@ def apply(prog, Body):
             if b.kind not in ("fn", "method", "closure", "coroutine"):
                 continue
             owner = owner_fn(p)
-            skip = known_combs.get(owner, set()) if owner in known else set()
+            skip = (known_combs.get(owner, set()) if owner in known else set()) | untracked
             new_raw, done = lower_body(raws, p, b.raw, skip)
             if done:
                 raws[p] = new_raw
